@@ -30,6 +30,75 @@ M = "imports.import_json"
 KEEP = ("_transpose", "_dictify", "_is_included", "_dump_table", "_dump_value", "_grist_type")
 
 
+class Anchors(object):
+  """The private helpers the rules look at, found by what they do (their current names are only
+  hints): a renamed helper is followed."""
+  def __init__(self, w):
+    mod = w.repo.module(M)
+    tables = w.repo.cls(M + ".Tables")
+    self.add_row = tables.methods.get("add_row")
+    if self.add_row is None:
+      raise AnalysisError("anchor function vanished: %s.Tables.add_row" % M)
+    funcs = list(mod.functions.values())
+
+    def returns_table_dict(fi):
+      v = H.View(w.fn_of(fi))
+      for r in walk_no_nested(fi.node):
+        if isinstance(r, ast.Return) and r.value is not None:
+          e = v.res(r.value)
+          if isinstance(e, ast.Dict) and any(isinstance(k, ast.Constant) and
+                                             k.value == "column_metadata" for k in e.keys):
+            return True
+      return False
+
+    self.dump_table = self._one([f for f in funcs if returns_table_dict(f)], "_dump_table", mod,
+                                "the function that returns the jgrist table dict")
+    called = {dotted(c.func) for c in calls_in(self.dump_table.node.body)}
+    self.transpose = self._one(
+      [f for f in funcs if f is not self.dump_table and f.name in called and
+       any(dotted(c.func) == "Col" for c in calls_in(f.node.body))], "_transpose", mod,
+      "the function that turns row dictionaries into columns")
+    ps = self.add_row.params()
+    value_p = ps[2] if len(ps) > 2 else None
+    self.dictify = self._one(
+      [mod.functions[dotted(c.func)] for c in calls_in(self.add_row.node.body)
+       if dotted(c.func) in mod.functions and len(c.args) == 1 and not c.keywords and
+       text(c.args[0]) == value_p], "_dictify", mod,
+      "the function add_row applies to its value before visiting the keys")
+    self.is_included = self._one(
+      [tables.methods[c.func.attr] for c in calls_in(self.add_row.node.body)
+       if isinstance(c.func, ast.Attribute) and isinstance(c.func.value, ast.Name) and
+       c.func.value.id == "self" and c.func.attr in tables.methods and
+       tables.methods[c.func.attr] is not self.add_row and
+       len(tables.methods[c.func.attr].params()) == 2], "_is_included", tables,
+      "the include/exclude test of Tables")
+    self.keep = tuple({f.name for f in (self.dump_table, self.transpose, self.dictify,
+                                        self.is_included)}) + ("_dump_value", "_grist_type")
+
+  @staticmethod
+  def _one(cands, hint, owner, what):
+    uniq = []
+    for f in cands:
+      if not any(f is g for g in uniq):
+        uniq.append(f)
+    named = [f for f in uniq if f.name == hint]
+    if named:
+      return named[0]
+    if len(uniq) == 1:
+      return uniq[0]
+    raise AnalysisError("%s: %s was not found (hint: %s; %d candidates)"
+                        % (M, what, hint, len(uniq)))
+
+
+_ANCHORS = {}
+
+
+def anchors(w):
+  if id(w) not in _ANCHORS:
+    _ANCHORS[id(w)] = (Anchors(w), w)
+  return _ANCHORS[id(w)][0]
+
+
 def check(run, repo, tier):
   w = World(repo)
   r1_equal_length(run, w)
@@ -68,9 +137,10 @@ def _never_stops(loop):
 def r1_equal_length(run, w):
   R1 = run.rule("C33-R1", "every emitted column is an unfiltered comprehension over the same "
                 "row list (equal length by construction)", floor=9)
-  H.require(w, M + "._transpose", M + "._dump_table")
-  dt = H.xfn(w, M + "._dump_table", keep=KEEP)
-  tp = H.xfn(w, M + "._transpose", keep=KEEP)
+  A = anchors(w)
+  KEEP = A.keep
+  dt = H.xfn(w, A.dump_table.qualname, keep=KEEP)
+  tp = H.xfn(w, A.transpose.qualname, keep=KEEP)
   vd, vt = H.View(dt), H.View(tp)
   run = H.Guarded(run, [vd, vt], keep=KEEP)
   rows = dt.fi.params()[1]
@@ -80,7 +150,7 @@ def r1_equal_length(run, w):
     run.ob(R1, fn.qualname, "%s is not written" % p, "the row list stays the same object and "
            "length throughout %s" % fn.fi.name, not wr, fi=fn.fi)
   # _dump_table -> _transpose(<one value dictionary per row>)
-  calls = [c for (n, c, nm) in dt.calls() if nm == "_transpose"]
+  calls = [c for (n, c, nm) in dt.calls() if nm == A.transpose.name]
   if len(calls) != 1:
     raise AnalysisError("_dump_table: one call of _transpose expected")
   c = _coll(vd, vd.arg(calls[0], 0)) if len(calls[0].args) + len(calls[0].keywords) == 1 else None
@@ -228,7 +298,9 @@ def _branch_ok(facts, val, want, allowed_extra=()):
 def r2_add_row(run, w):
   R2 = run.rule("C33-R2", "add_row visits every key, recurses into every dict and list element, "
                 "stores scalars under the include test, numbers rows by position", floor=9)
-  H.require(w, M + "._dictify", M + ".Tables._is_included")
+  A = anchors(w)
+  KEEP = A.keep
+  DICTIFY, INCLUDED = A.dictify.name, A.is_included.name
   fn = H.xfn(w, M + ".Tables.add_row", keep=KEEP)
   v = H.View(fn)
   run = H.Guarded(run, v, keep=KEEP)
@@ -251,7 +323,7 @@ def r2_add_row(run, w):
   inner = it.args[0] if isinstance(it, ast.Call) and dotted(it.func) == "sorted" and \
       len(it.args) == 1 and not it.keywords else it
   # the loop runs on every path, over all items of the dictified value
-  ok = text(inner) == "_dictify(%s).items()" % p_value and \
+  ok = text(inner) == "%s(%s).items()" % (DICTIFY, p_value) and \
       cfg.dominated_by(cfg.exit.id, {head}) and \
       not any(isinstance(z, ast.Break) for b in lp.body for z in walk_no_nested(b))
   run.ob(R2, q, "for (k, val) in sorted(_dictify(%s).items())" % p_value, "every key of the "
@@ -260,7 +332,7 @@ def r2_add_row(run, w):
   if not ok:
     return
   kv, vv = "_v0_0", "_v0_1"
-  dfy = w.fn(M + "._dictify")
+  dfy = w.fn_of(A.dictify)
   dv = H.View(dfy)
   dp = dfy.fi.params()[0]
   arms = H.decision_arms(dfy.node)
@@ -335,7 +407,7 @@ def r2_add_row(run, w):
   ok = len(sc) == 1
   if ok:
     n, s = sc[0]
-    inc = "self._is_included(%s)" % sub
+    inc = "self.%s(%s)" % (INCLUDED, sub)
     facts = v.facts_at(s, start=head, mapping=tm)
     ok = v.t(s.targets[0].slice, tm) == kv and v.t(s.value, tm) == vv and \
         _branch_ok(facts, vv, None, allowed_extra=(rowvar, inc)) and (inc, True) in facts
@@ -373,6 +445,7 @@ def r2_add_row(run, w):
 
 def _dumps(run, R2, w, params, p_table, p_value, p_parent):
   """dumps(): every top-level item becomes a row of the main table."""
+  KEEP = anchors(w).keep
   dm = H.xfn(w, M + ".dumps", keep=KEEP)
   vm = H.View(dm)
   run = H.Guarded(run, vm, keep=KEEP)
@@ -467,7 +540,9 @@ def r3_parent_column(run, w):
   """The back-reference column of a sub-table: present whenever *any* row has a parent."""
   R3 = run.rule("C33-R3", "the parent-reference column is added whenever some row of the table "
                 "has a parent, and holds each row's own parent", floor=2)
-  dt = H.xfn(w, M + "._dump_table", keep=KEEP)
+  A = anchors(w)
+  KEEP = A.keep
+  dt = H.xfn(w, A.dump_table.qualname, keep=KEEP)
   v = H.View(dt)
   run = H.Guarded(run, v, keep=KEEP)
   rows = dt.fi.params()[1]
